@@ -89,7 +89,7 @@ CHECKS.update({
    text="Proof (partial): facts about the hybrid machinery of the lowering model (popPending never invents entries, rendering order of set-value vs execute for postfix and calls); the ordering/exactly-once theorems over all placements are in progress and not claimed until they build. " + "Tie: for every program of this run the denoted tree of the REAL output equals the tree of the Lean hybrid lowering model (Model/CompileH.lean, code configuration); search: Lean executes the effectful C semantics (Model/CSemH.lean) and the real effect on boundary + pseudo-random states. Failures in a listed carve-out class are KNOWN-FINDINGs, anything else a violation. " + "Programs: directed families (each hybrid kind in initialiser, assignment, condition, loop step, call argument, ?: arm, unused expression statement; 0..4 hybrids per program) + generated programs with hybrids.",
    note=TB + "C side Model/CSemH.lean (effectful expressions, sequence points as in C11 for the generated programs; programs with unsequenced interference are not judged) and IL side Model/ILSem.lean are the specification; lowering model Model/CompileH.lean tied by tree comparison with the real output on every run.", technique="Lean 4 lowering model with pending-hybrid state + lemmas; tie by tree equality with real output; Lean-executed C-vs-IL search", ref="DESIGN.md section 4, C06"),
  "C08": dict(
-   text="Proof (partial): rendering facts of the call hybrid (execute then set the temporary from ret_val with the declared signedness/width); calling-convention theorems are in progress and not claimed until they build. " + "Tie: for every program of this run the denoted tree of the REAL output equals the tree of the Lean hybrid lowering model (Model/CompileH.lean, code configuration); search: Lean executes the effectful C semantics (Model/CSemH.lean) and the real effect on boundary + pseudo-random states. Failures in a listed carve-out class are KNOWN-FINDINGs, anything else a violation. " + "Programs: calls of every bundled sub-routine with all argument type combinations, nested calls, 1..4 calls per expression, calls in dead ?: arms; the REAL compiled bodies of the sub-routines are executed by Lean for the callee; per-output sort/well-formedness/linearity problems of every compiled sub-routine body count as violations; long-lived compiler instances (temporary numbering continues).",
+   text="Proof: argument conversion (args_length; args_converted: under the repaired configuration the compiled arguments evaluate to exactly the values converted to the parameter types that the C call computes), the call's pending entry (call_entry: execute hex_<name>, then SETL tmp := SIGNED/UNSIGNED ret.width (VARL ret_val), chosen by the declared signedness), return conversion on both sides (return_value_IL, return_value_C, return_value_agree, return_roundtrip, return_stmt_IL, return_then_read), the frame theorem for ALL effects/fuels/states (frame: execution changes locals, registers, memory only inside the syntactic footprint computed through the sub-routine environment; params restored), call_preserves_disjoint_locals and C_call_isolates, nested calls (nested_call: the inner call's sequence is pulled in front of the outer call, any earlier arguments), protection of a call's value once copied (call_value_protected, later_call_tmp_ne), end-to-end simulation of a call under hypotheses on the callee body (call_correct_builtin, call_correct_sub with full instances clz32_call_correct, id32_call_correct). The isolation clause is refuted on the model of the code AND on the repaired configuration (flat IL namespace): kernel-checked witness `clz32(a) + clz32(b)` gives 61 instead of 46 because the callee's own h_tmp0 overwrites the caller's live temporary (witness_IL, witness_C, witness_not_disjoint, witness_ret_val_clobbered) — listed known finding. " + "Tie: for every program of this run the denoted tree of the REAL output equals the tree of the Lean hybrid lowering model (Model/CompileH.lean, code configuration); search: Lean executes the effectful C semantics (Model/CSemH.lean) and the real effect on boundary + pseudo-random states. Failures in a listed carve-out class are KNOWN-FINDINGs, anything else a violation. " + "Programs: calls of every bundled sub-routine with all argument type combinations, nested calls, 1..4 calls per expression, calls in dead ?: arms; the REAL compiled bodies of the sub-routines are executed by Lean for the callee; per-output sort/well-formedness/linearity problems of every compiled sub-routine body count as violations; long-lived compiler instances (temporary numbering continues).",
    note=TB + "callee semantics: the real compiled body executed in the caller's flat IL namespace (as RzIL does); C side of bundled sub-routines: Model/CSemH.lean builtinSub (hand-written from sub_routines.json, conv_round by its C text).", technique="Lean 4 lowering model + lemmas; tie by tree equality with real output; Lean-executed C-vs-IL search incl. real callee bodies", ref="DESIGN.md section 4, C08"),
 })
 CHECKS.update({
